@@ -76,6 +76,31 @@ def run(ck: Check):
                         l(torch.rand(4, n_in))
                     l.forward_sampling = "hard"
                     hard_vs_eval(l, xb, dict(case, sequence="soft-forward then hard"), {"layer": "dense", "param": par, "what": "mode-switch"})
+    # near-tied logits and extreme temperatures: the hard gate is the argmax of the LOGITS (as in eval), not of the rounded softmax (F30)
+    from torchlogix.layers import LogicConv2d as _C2
+    tie_cases = [("residual-init-T1e9", None, 1e9), ("two-ulps-apart-T30", {3: 5.0, 12: 5.0000005}, 30.0),
+                 ("tiny-gap-T1", {5: 0.01, 9: 0.010000001}, 1.0), ("large-logits-T1e-3", {2: 40.0, 7: 40.000004}, 1e-3)]
+    for name, logits, tau in tie_cases:
+        for layer_kind in ("dense", "conv"):
+            torch.manual_seed(ck.seed)
+            if layer_kind == "dense":
+                l = LogicDense(4, 6, device="cpu", forward_sampling="hard", temperature=tau)
+                ws = [l.weight]
+                xb = torch.tensor(nets.all_rows(4), dtype=torch.float32)
+            else:
+                l = _C2(in_dim=(3, 3), device="cpu", channels=1, num_kernels=2, tree_depth=2, receptive_field_size=2, forward_sampling="hard",
+                        temperature=tau)
+                ws = [w for level in l.tree_weights for w in level]
+                xb = torch.tensor(nets.all_rows(9), dtype=torch.float32).reshape(-1, 1, 3, 3)
+            if logits is not None:
+                with torch.no_grad():
+                    for w in ws:
+                        w.zero_()
+                        for g, v in logits.items():
+                            w[:, g] = v
+            case = {"layer": layer_kind, "param": "raw", "logits": name, "tau": tau}
+            ck.case(case, nontrivial=True, kind="near-tie")
+            hard_vs_eval(l, xb, case, {"layer": layer_kind, "param": "raw", "what": "hard-vs-eval-near-tie"})
     for rep in range(reps * 3):
         par = "walsh" if rep % 2 else "raw"
         tau = [0.3, 1.0, 4.0][rep % 3]
